@@ -51,7 +51,7 @@ class Transfer:
 def run_sequence(res, exe, rng, first, forced=None):
     srv = rng.choice([2, 5, 100])
     nid = rng.choice([1, 9])
-    cfg = Config(nodeid=nid, freq=1000, tmrnum=rng.choice([4, 16]))
+    cfg = Config(nodeid=nid, freq=1000, tmrnum=rng.choice([1, 1, 4, 16]))       # 1: the pool holds exactly the one timer the client needs
     gen.add_mandatory(cfg, hb=0, ssdo=1, ssdo_rw=False)
     gen.add_csdo(cfg, 0, server=srv)
     cfg.finalize()
@@ -80,6 +80,11 @@ def run_sequence(res, exe, rng, first, forced=None):
             res.counters["transfers"] += 1
             res.counters["beh_" + tr.behaviour] += 1
             m3 = mux(tr.idx, tr.sub)
+            # in a quarter of the transfers the application starts a timer of its own inside the completion callback (a retry delay):
+            # it must run - the finished transfer may not take anything with it (needs a pool slot: not with the one-timer pool)
+            cbtimer = cfg.tmrnum > 1 and rng.random() < 0.25
+            if cbtimer:
+                sim.cmd("csdocbtimer 20 7")
             if tr.up:
                 r, evs = sim.ret_ev("csdoup 0 %x %x %d %d" % (tr.idx, tr.sub, tr.size, tr.timeout))
             else:
@@ -278,6 +283,14 @@ def run_sequence(res, exe, rng, first, forced=None):
             occ = sim.occ()
             if occ["csdo"] != 0:
                 return fail("timer-left", desc + ": %d SDO client timer(s) still running after completion" % occ["csdo"])
+            if cbtimer:
+                if occ["app"] != 1:
+                    return fail("callback-timer/deleted", desc + ": the timer the application started in the completion callback is gone (%d application timers in the pool)" % occ["app"])
+                evs = sim.cmd("tick 21")
+                if len(S.cbs(evs, "apptmr")) != 1 or callbacks(evs) or frames(evs):
+                    return fail("callback-timer/not-run", desc + ": timer started in the completion callback (20 ticks): %d expiries within 21 ticks (reference 1), client callbacks %r frames %r" % (
+                        len(S.cbs(evs, "apptmr")), callbacks(evs), frames(evs)))
+                res.counters["timers_started_in_completion_callback"] += 1
             # idle gap: nothing may happen (no late second callback, no abort frame)
             gap = rng.choice([0, 1, 3, tr.timeout, tr.timeout + 2])
             if gap:
